@@ -184,7 +184,7 @@ def check_P3(prog, rep, eff, key, f, rasters):
                 probs.append('%s= missing' % field)
                 continue
             src = attr_source(scope, v, field)
-            rb = rebound(scope, src[0]) if src is not None and bind.get(src[0]) in rasters else None
+            rb = rebound(scope, src[0], prog) if src is not None and bind.get(src[0]) in rasters else None
             if src is None or bind.get(src[0]) not in rasters:
                 probs.append('%s=%s is not the input raster\'s .%s' % (field, norm(v)[:50], field))
             elif rb is not None and rb[0] == 'reordered' and field in ('coords', 'dims'):
@@ -207,7 +207,26 @@ REORDER = ('isel', 'sel', 'transpose', 'sortby', 'reindex', 'reindex_like', 'rol
 KEEPING = ('astype', 'copy', 'chunk', 'persist', 'compute', 'load', 'fillna', 'where', 'clip', 'round', 'rename')
 
 
-def rebound(scope, name):
+def _returns_own_param(prog, scope, call, name, depth=0):
+    """`name = helper(name, ..)` where the package helper hands back, on every path, the very parameter that received `name`
+    (a validating helper: checks, then `return raster`)"""
+    try:
+        t = prog.resolve_callable(scope, scope.module, call.func)
+    except Exception:      # noqa
+        return False
+    if not isinstance(t, Func) or t.is_lambda or depth > 1:
+        return False
+    par = None
+    for p_, a_ in list(zip(t.params, call.args)) + [(k_.arg, k_.value) for k_ in call.keywords if k_.arg]:
+        if isinstance(a_, ast.Name) and a_.id == name:
+            par = p_
+    rets = [r_ for r_ in t.own_nodes() if isinstance(r_, ast.Return)]
+    if par is None or not rets or not all(isinstance(r_.value, ast.Name) and r_.value.id == par for r_ in rets):
+        return False
+    return rebound(t, par, prog, depth + 1) in (None,)
+
+
+def rebound(scope, name, prog=None, depth=0):
     """None when the raster variable `name` (a parameter) is never assigned in `scope`, or only to something that has the same
     cells in the same places (`x = x.astype(t)`, `x = x.copy()`); ('reordered', text) when some assignment selects or re-orders
     cells (`x = x.isel(y=slice(None, None, -1))`, `x = x.T`, `x = x[::-1]`); ('unknown', text) for any other re-binding."""
@@ -227,6 +246,8 @@ def rebound(scope, name):
                     kind = 'reordered'
                 elif v_.func.attr in KEEPING:
                     kind = 'same'
+            elif isinstance(v_, ast.Call) and prog is not None and _returns_own_param(prog, scope, v_, name, depth):
+                kind = 'same'
             elif isinstance(v_, ast.Attribute) and isinstance(v_.value, ast.Name) and v_.value.id == name and v_.attr == 'T':
                 kind = 'reordered'
             elif isinstance(v_, ast.Subscript) and isinstance(v_.value, ast.Name) and v_.value.id == name:
